@@ -20,6 +20,10 @@ CHECKS = {
    technique="deterministic simulation with fault injection: seeded cases, exhaustive single-fault placement on a simulated stream (every cut point, every read/seek/tell call), twin-input oracle",
    text="Seeded search over (definition set, configuration, accepted input); inside each case every single stream fault is enumerated (EOF at each byte, short/empty/None/raising read at each read call, raising seek/tell at each call) plus sampled 2-3 fault sequences, on a stream object the simulator owns. Oracle: a faulted parse raises (EOFError for pure truncation) or returns the fault-free value; a returned value must equal the full parse of every tried completion of the bytes actually delivered; a fresh parse afterwards is unchanged. Sampling over cases, exhaustive over single faults within a case.",
    note="Trusts: SimStream models file/pipe/socket read semantics; b'' / short read means end of data; to-end-of-stream arrays exempt as the statement says; _sizes bookkeeping is not part of the compared value; position after a failed parse unconstrained."),
+ "C15": dict(engine="E-THREAD", cat="exploration", ref="4.8",
+   technique="deterministic simulation: real threads under a seeded cooperative scheduler (sys.settrace line events as pre-emption points, baton passing), PCT-style bounded pre-emption schedules plus single-pre-emption sweeps, compared with each thread running alone",
+   text="Seeded search over (definitions biased to expressions, bit-fields, unions, pointers, enums; 2-4 threads with own streams sharing the type objects; schedules). The simulator owns the only source of nondeterminism (which thread runs after each library source line), so every schedule replays exactly. Oracle: every thread's observations and exceptions equal those of its script run alone on a freshly loaded cstruct. Sampling of schedules with at most 3 pre-emptions plus windows of exhaustive single pre-emption placement; not exhaustive.",
+   note="Trusts: line-granularity yield points (switches inside one source line not explored); CPython executes one bytecode atomically; the tracer does not change library behaviour."),
 }
 PENDING = {'C05': 'check not built yet in this revision (planned engine, DESIGN 4); not claimed until its check exists', 'C09': 'check not built yet in this revision (planned engine, DESIGN 4); not claimed until its check exists', 'C10': 'check not built yet in this revision (planned engine, DESIGN 4); not claimed until its check exists', 'C11': 'check not built yet in this revision (planned engine, DESIGN 4); not claimed until its check exists', 'C13': 'check not built yet in this revision (planned engine, DESIGN 4); not claimed until its check exists', 'C14': 'check not built yet in this revision (planned engine, DESIGN 4); not claimed until its check exists', 'C15': 'check not built yet in this revision (planned engine, DESIGN 4); not claimed until its check exists', 'C16': 'check not built yet in this revision (planned engine, DESIGN 4); not claimed until its check exists', 'C17': 'check not built yet in this revision (planned engine, DESIGN 4); not claimed until its check exists', 'C18': 'check not built yet in this revision (planned engine, DESIGN 4); not claimed until its check exists'}
 
